@@ -54,7 +54,7 @@ func goAccepts(ev []Event) string {
 func TestSmoke(t *testing.T) {
 	r := hx.NewRand(7)
 	bad := 0
-	for i := 0; i < 3000; i++ {
+	for i := 0; i < 300; i++ {
 		cfg := RandomConfig(r, GenOpts{AllowROB: true, NOps: 80, PIDs: i % 3})
 		a := Build(cfg)
 		ev := a.Run()
